@@ -301,6 +301,11 @@ def cases(tier, seed=0):
         out.append(scan_case(2, 2, timeout=3000))
     for name, (decl, f, names) in pipelines().items():
         out.append(grad_case(name))
+    # gradient through the heteroscedastic variational bound (lax.while_loop + stop_gradient on the variational parameters)
+    from .c17 import tightness_case
+    for link in ("exp", "cosh"):
+        for (Dx, Dy, Dk, signs) in ((1, 1, 1, [1]), (2, 2, 1, [-1])):
+            out.append(tightness_case(link, Dx, Dy, Dk, signs, mode="grad", prop=PROP))
     out += [vmap_case("loglik", "x"), vmap_case("loglik", "mu"), vmap_case("quartic", "mu"), vmap_case("kl", "mq"),
             vmap_case("rankone_logint", "v"), vmap_case("posterior", "y"), vmap_case("elbo_terms", "mx"), vmap_case("loglik", "S")]
     return out
